@@ -1,17 +1,19 @@
 #!/usr/bin/env python3
-"""eval_mutants.py [ID/K ...]: apply each seeded change to /repo, run the check(s) of its property, undo.
-Results go to /tmp/mut/results/<ID>_<K>.json. /repo must be clean; evidence files are restored."""
+"""eval_mutants.py [ID/K ...]: apply each seeded change (/verif/seeded/<ID>/<K>/patch.diff) to /repo, run the
+check(s) of its property, undo. Results go to /verif/seeded/results/<ID>_<K>.json. /repo must be clean;
+evidence files are restored."""
 import json, os, subprocess, sys, shutil, time, glob
-R = "/tmp/mut/results"
+R = "/verif/seeded/results"
+S = "/verif/seeded"
 os.makedirs(R, exist_ok=True)
-targets = sys.argv[1:] or sorted(p[len("/tmp/mut/"):] for p in glob.glob("/tmp/mut/C??/[0-9]"))
+targets = sys.argv[1:] or sorted(p[len(S) + 1:] for p in glob.glob(S + "/C??/[0-9]"))
 OVERRIDE = {"C04/1": ["C09"], "C11/3": ["C11", "C01"]}
 EXTRA = {"C02/3": ["C06"], "C03/1": ["C05"], "C10/1": ["C05"], "C19/1": ["C13"], "C03/2": ["C10"], "C03/3": ["C10"], "C10/2": ["C10"], "C07/1": ["C07", "C17"], "C17/1": ["C17", "C07"]}
 def sh(cmd, **kw):
     return subprocess.run(cmd, shell=True, stdout=subprocess.PIPE, stderr=subprocess.STDOUT, text=True, **kw)
 for t in targets:
     pid, k = t.split("/")
-    m = f"/tmp/mut/{pid}/{k}"
+    m = f"{S}/{pid}/{k}"
     if not os.path.exists(m + "/patch.diff"):
         continue
     out = {"mutant": t, "checks": {}}
